@@ -171,7 +171,7 @@ CLAIMED["C19"] = dict(engine="yast",
          "every keyword a demangled type description can contain (fundamental types incl. the wide character types, cv-qualifiers, elaborated-type "
          "keywords - a reasoned list in the checker); a matched word is dropped only as a template name, a non-identifier, a word of that table or "
          "a std:: / yorel:: entity (prefixes with the scope operator), and every other word is recorded unconditionally; detail::starts_with is "
-         "'begins with'. Does NOT decide the writer: balance of the namespace braces, one declaration per class, exactly its namespace (a string "
+         "'begins with'; the writer's two namespace-closing loops agree (one brace per scope operator). Does NOT decide the rest of the writer: balance of the namespace braces, one declaration per class, exactly its namespace (a string "
          "algorithm over run-time characters). One defect found and repaired (F16).",
     design_ref="DESIGN.md section 4, C19")
 NA = {
